@@ -31,7 +31,7 @@ import (
 	"github.com/anyproto/any-sync/util/crypto"
 )
 
-const vWatchdog = 20 * time.Second
+const vWatchdog = 60 * time.Second
 
 type vCtxKey int
 
